@@ -444,6 +444,9 @@ def fn_method_expectations(I, f, d, eff, O, method_trait, method_impl, mode, fn_
     bad_modes = sorted({str(t[1]) for p in params if p.name() is None for t in p.pat if t[0] in ('I', 'P') and isinstance(t[1], str) and t[1] in ('mut', 'ref', '@')})
     O.add('C16', f'{tag}:every-parameter-is-a-plain-identifier', all(n is not None for n in names),
           f'patterns {[show(p.pat) for p in params]}', cls=('binding-mode-kept:' + '+'.join(bad_modes)) if bad_modes else '')
+    # forwarding happens by name: a parameter that is still a pattern cannot be forwarded (C01 for fn / mod inputs, C07 for impl blocks)
+    O.add('C07' if mode in ('impl_static', 'impl_dyn') else 'C01', f'{tag}:every-argument-can-be-forwarded-by-name', all(n is not None for n in names),
+          f'patterns {[show(p.pat) for p in params]}')
     if any(n is None for n in names):
         return
     # expected receiver
@@ -764,6 +767,9 @@ def trait_impl_expectations(I, eff, deps, fns, trait_item, impl_item, attr0, mod
         want = [('P', '::'), ('I', 'entrait'), ('P', '::'), ('I', 'entrait'),
                 ('G', '(', [('I', 'unimock'), ('P', '='), ('I', 'false'), ('P', ','), ('I', 'mockall'), ('P', '='), ('I', 'false')])]
         O.add('C05', 'nested-entrait-attribute-disables-mocks', toks_eq(nested[0], want), f'`{show(nested[0])}`')
+        # the leaf trait is expanded once more by that nested attribute: unless both mock kinds are pinned off there, the defaults of the
+        # unimock feature would attach a derivation the outer invocation did not ask for (C10: explicit false always wins)
+        O.add('C10', 'nested-entrait-attribute-pins-both-mock-kinds-off', toks_eq(nested[0], want), f'`{show(nested[0])}`')
     # ---- C04: impl header ----------------------------------------------------------------------------------------
     any_by_value = any((d.kind in ('generic', 'concrete') and not d.outer_ref) for d in deps) and mode in ('fn', 'mod')
     gens = impl_item.generics
@@ -925,6 +931,8 @@ def c11_unimock_params(I, eff, deps, fns, tm, params, mode, O):
     parts = rsview.split_top(params, ',')
     want_prefix = [('I', 'prefix'), ('P', '='), ('P', '::'), ('I', 'entrait'), ('P', '::'), ('I', '__unimock')]
     O.add('C11', 'unimock-prefix', bool(parts) and toks_eq(parts[0], want_prefix), f'`{show(parts[0] if parts else [])}`')
+    # without the prefix unimock's own expansion names `::unimock::..`, i.e. depends on what the invoking crate imports (C19)
+    O.add('C19', 'unimock-derivation-is-pointed-at-::entrait::__unimock', bool(parts) and toks_eq(parts[0], want_prefix), f'`{show(parts[0] if parts else [])}`')
     rest = parts[1:]
     api = eff['mock_api_ident']
     if api is not None:
@@ -1359,6 +1367,8 @@ def spec_impl_mode(ex, attr0, item0, out_value):
     at_attrs = [I.toks(a)[1][2] for a in attrs_in if attr_kind(I, a) == 'async_trait']
     O.add('C12', 'async_trait-re-applied-to-the-trait-impl', len(timpl.attrs) == len(at_attrs) and zand(*[toks_eq(a, b) for a, b in zip(timpl.attrs, at_attrs)]),
           f'{[show(a, 60) for a in timpl.attrs]}')
+    O.add('C18', 'generated-trait-impl-carries-only-async_trait-copies', all(any(toks_eq(x, a) is True for a in at_attrs) for x in timpl.attrs) and
+          len(timpl.attrs) <= len(at_attrs), f'{[show(a, 60) for a in timpl.attrs]} (attributes of the impl block stay on the inherent impl)')
     mode = 'impl_static' if kind == 'Static' else 'impl_dyn'
     if len(im) == len(fns):
         for k, (f, d) in enumerate(zip(fns, deps)):
@@ -1391,6 +1401,8 @@ def impl_method_expectations(I, f, d, O, mi, mode, tag, has_async_trait):
         bad_modes = sorted({str(t[1]) for p in params if p.name() is None for t in p.pat if t[0] in ('I', 'P') and isinstance(t[1], str) and t[1] in ('mut', 'ref', '@')})
         O.add('C16', f'{tag}:every-parameter-is-a-plain-identifier', False, f'{[show(p.pat) for p in params]}',
               cls=('binding-mode-kept:' + '+'.join(bad_modes)) if bad_modes else '')
+        # the delegating method forwards by name: a parameter that is still a pattern cannot reach the implementation block as written
+        O.add('C07', f'{tag}:every-argument-can-be-forwarded-by-name', False, f'patterns {[show(p.pat) for p in params]}')
         return
     n_user = len(inputs) - (0 if d.kind == 'nodeps' else 1)
     impl_ty = [('P', '&')] + list(IMPL_PATH)
@@ -1655,6 +1667,8 @@ def spec_trait_mode(ex, variant, attr0, item0, out_value):
             base = got[:-len(send)] if has_send else got
             O.add('C12', f'{tag}:future-output-is-the-declared-return-type', toks_eq(base, want), f'`{show(got, 200)}`')
             O.add('C12', f'{tag}:send-bound-iff-not-?Send', has_send == eff['future_send'], f'Send={has_send}')
+            O.add('C09', f'{tag}:async-rewrite-is-the-documented-one', zand(toks_eq(base, want), has_send == eff['future_send']),
+                  f'`{show(got, 200)}` (documented: `impl ::core::future::Future<Output = R>` + Send unless ?Send)')
             O.add('C12', f'{tag}:trait-method-not-async', 'async' not in mt.quals)
             O.add('C14', f'{tag}:no-boxing', not contains_ident(got, ('Box', 'dyn', 'Pin')))
             # everything else of the signature is kept
@@ -1798,6 +1812,11 @@ def spec_trait_mode(ex, variant, attr0, item0, out_value):
                     ok = len(drecv) == 1 and df.params[0].receiver is not None and len(dparams) == len(user) + 1 and dparams[0].name() == '__impl' and \
                         toks_eq(dparams[0].ty, impl_ty) is True
                     O.add('C07', f'm{k}:dynamic-target-method-takes-(&self, __impl: &Impl<T>, args)', ok, f'`{show(sig_tokens(df), 200)}`')
+                # attributes of a method (a `cfg` above all) are mirrored on every copy of it: the trait, the delegating method
+                # and the delegation-target trait
+                ain_m = [I.toks(a)[1][2] for a in I.items(m, 'attrs')]
+                O.add('C18', f'm{k}:method-attributes-mirrored-on-the-delegation-target-trait', len(df.attrs) == len(ain_m) and
+                      zand(*[toks_eq(a, b) for a, b in zip(df.attrs, ain_m)]), f'{[show(a, 50) for a in df.attrs]} vs {[show(a, 50) for a in ain_m]}')
                 rest_p = dparams[1:] if len(dparams) == len(user) + 1 else []
                 O.add('C07', f'm{k}:target-method-keeps-the-arguments', len(rest_p) == len(user) and
                       zand(*[zand(toks_eq(a.pat, b.pat), toks_eq(a.ty, b.ty)) for a, b in zip(rest_p, user)]), f'`{show(sig_tokens(df), 200)}`')
@@ -2076,6 +2095,9 @@ def spec_front_item(ex, what, cells, parsed, out_value):
     if what in ('mod', 'impl'):
         ref = front.ref_items(ex, cells, pub_only=(what == 'mod'))
         if ref[0] == 'unspecified':
+            # not legal Rust: rustc never hands such a body to the macro, and a client crate containing it would not even parse -
+            # keep it out of the translator-validation sample
+            ex.notes['skip_validation'] = True
             return O
         if ref[0] == 'err':
             O.add('C15', 'malformed-body-is-rejected-with-a-diagnostic', parsed.variant == 'Err', f'reference: {ref[1]}; the macro accepted')
@@ -2161,6 +2183,8 @@ def spec_front_item(ex, what, cells, parsed, out_value):
     # precondition: a legal fn item `attrs* vis? quals fn IDENT (..) [-> T] { .. }` and nothing after it
     ref = front.ref_items(ex, cells, pub_only=False)
     if ref[0] != 'ok' or len(ref[1]) != 1 or ref[1][0][0] != 'fn':
+        if ref[0] != 'ok':
+            ex.notes['skip_validation'] = True
         return O
     toks = I.P.flat(out_value.fields[0].toks)
     src = []
